@@ -31,6 +31,7 @@ func ruleC15(r *Report) {
 	r.Rule("C15.tags", "in every struct type reachable from EntityDescriptor/EntitiesDescriptor all fields are exported, none is tagged xml:\"-\", and no two fields of one struct map to the same XML name and kind (encoding/xml silently drops conflicting fields)", 13)
 	safely(r, func() { checkXMLTags(r, p) })
 	checkAliasPairs(r, p)
+	safely(r, func() { checkDecodersPure(r, p, "C15.alias-pairs", func(string) bool { return true }) })
 	safely(r, func() { checkDurationUnits(r, p) })
 	checkTrunc(r, p)
 	checkRelaxedTime(r, p)
@@ -202,7 +203,19 @@ func checkAliasPairs(r *Report, p *Prog) {
 				xfc := rgU.Ctx(au, x.C)
 				xfc.ensureConds()
 				src := false
+				var leaves []RV
 				for _, lf := range rgU.Origins(RV{V: st.Val, C: x.C}) {
+					// a local of a helper that holds the converted value (t := time.Time(*p); m.F = &t): follow
+					// what it was initialised with back into the decoder
+					if al, isA := lf.V.(*ssa.Alloc); isA && lf.C != rgU.top {
+						if iv := initStore(al); iv != nil {
+							leaves = append(leaves, rgU.Origins(RV{V: unwrapConv(iv), C: lf.C})...)
+							continue
+						}
+					}
+					leaves = append(leaves, lf)
+				}
+				for _, lf := range leaves {
 					lfc := rgU.Ctx(au, lf.C)
 					ap := lfc.AP(lf.V)
 					lv := lf.V
@@ -2099,4 +2112,158 @@ func resultArmOK(p *Prog, fu *FuncCtx, b *ssa.BasicBlock, ri *resultFieldInfo, e
 		}
 	}
 	return "the parsed value is stored although " + shortFn(helper) + " reported an error"
+}
+
+// checkDecodersPure: what an UnmarshalXML method of the root package stores into its receiver is a function of the element
+// it decodes, and of nothing else. (a) the method and its unexported helpers read no clock (TimeNow, Clock), no random
+// source and no package-level variable the library writes: a missing IssueInstant filled in with "now" is fresh by
+// construction. (b) the receiver is handed, whole, to no module function: a post-decode step that completes the object
+// (a group's validity copied into its members) makes parse(marshal(x)) differ from x. typeOK selects the types.
+func checkDecodersPure(r *Report, p *Prog, rule string, typeOK func(string) bool) {
+	written := moduleWrittenGlobals(p)
+	n := 0
+	for _, fn := range p.modFns {
+		if !p.InLibrary(fn) || fn.Pkg == nil || fn.Pkg.Pkg.Path() != modPath || fn.Name() != "UnmarshalXML" || fn.Signature.Recv() == nil || len(fn.Params) == 0 {
+			continue
+		}
+		nm := namedOf(fn.Signature.Recv().Type())
+		if nm == nil || !typeOK(nm.Obj().Name()) {
+			continue
+		}
+		n++
+		r.Fn(p.FnName(fn))
+		cons := p.FnName(fn) + ": the decoded value depends on the element only"
+		bad := ""
+		for _, f := range helperRegion(p, fn, 2) {
+			for _, b := range f.Blocks {
+				for _, in := range b.Instrs {
+					for _, op := range in.Operands(nil) {
+						if op == nil || *op == nil {
+							continue
+						}
+						g, ok := (*op).(*ssa.Global)
+						if !ok || g.Pkg == nil || !strings.HasPrefix(g.Pkg.Pkg.Path(), modPath) {
+							continue
+						}
+						_, isW := written[g]
+						if isW || g.Name() == "TimeNow" || g.Name() == "Clock" || g.Name() == "RandReader" {
+							bad = firstNonEmpty(bad, "reads "+g.Name()+" at "+p.InstrPos(in))
+						}
+					}
+					if c, ok := in.(ssa.CallInstruction); ok && f == fn {
+						if sc := c.Common().StaticCallee(); sc != nil && p.InLibrary(sc) && sc.Name() != "UnmarshalXML" {
+							for k, a := range c.Common().Args {
+								if a == ssa.Value(fn.Params[0]) && k < len(sc.Params) {
+									if at := receiverSelfCopy(p, sc, sc.Params[k], map[*ssa.Function]bool{}); at != "" {
+										bad = firstNonEmpty(bad, "hands its receiver to "+shortFn(sc)+" at "+p.InstrPos(in)+", which fills one part of it from another ("+at+")")
+									}
+								}
+							}
+						}
+						if c.Common().StaticCallee() != nil && (c.Common().StaticCallee().String() == "time.Now" || c.Common().StaticCallee().String() == "time.Since") {
+							bad = firstNonEmpty(bad, "reads the wall clock at "+p.InstrPos(in))
+						}
+					}
+				}
+			}
+		}
+		if at := receiverSelfCopy(p, fn, fn.Params[0], map[*ssa.Function]bool{fn: true}); at != "" {
+			bad = firstNonEmpty(bad, "fills one part of its receiver from another ("+at+")")
+		}
+		r.Check(bad == "", rule, cons, p.Pos(fn.Pos()), "no clock, random source or library-written state; no part of the receiver is filled from another part of it", "the decoder "+bad+": the value it produces is not what the element says (a default taken from the moment of parsing, or data copied in from elsewhere), so a generated document does not re-parse to an equal value and a check on the decoded field is satisfied by construction")
+	}
+	if n == 0 {
+		r.Undecided(rule, "UnmarshalXML methods of the selected types", "-", "none found")
+	}
+}
+
+// receiverSelfCopy finds, in fn and the library functions it hands the
+// value to, a store whose address and whose value are both reached from the
+// parameter recv: one part of the decoded value filled from another part.
+func receiverSelfCopy(p *Prog, fn *ssa.Function, recv *ssa.Parameter, seen map[*ssa.Function]bool) string {
+	memo := map[ssa.Value]int{}
+	var rooted func(v ssa.Value) bool
+	rooted = func(v ssa.Value) bool {
+		if v == ssa.Value(recv) {
+			return true
+		}
+		if s, ok := memo[v]; ok {
+			return s == 2
+		}
+		memo[v] = 1
+		res := false
+		switch x := v.(type) {
+		case *ssa.FieldAddr:
+			res = rooted(x.X)
+		case *ssa.IndexAddr:
+			res = rooted(x.X)
+		case *ssa.Field:
+			res = rooted(x.X)
+		case *ssa.Index:
+			res = rooted(x.X)
+		case *ssa.UnOp:
+			res = rooted(x.X)
+		case *ssa.Slice:
+			res = rooted(x.X)
+		case *ssa.Convert:
+			res = rooted(x.X)
+		case *ssa.ChangeType:
+			res = rooted(x.X)
+		case *ssa.MakeInterface:
+			res = rooted(x.X)
+		case *ssa.Lookup:
+			res = rooted(x.X)
+		case *ssa.Extract:
+			res = rooted(x.Tuple)
+		case *ssa.Next:
+			res = rooted(x.Iter)
+		case *ssa.Range:
+			res = rooted(x.X)
+		case *ssa.Phi:
+			for _, e := range x.Edges {
+				if rooted(e) {
+					res = true
+				}
+			}
+		}
+		if res {
+			memo[v] = 2
+		}
+		return res
+	}
+	for _, b := range fn.Blocks {
+		for _, in := range b.Instrs {
+			switch x := in.(type) {
+			case *ssa.Store:
+				if _, isAlloc := x.Addr.(*ssa.Alloc); isAlloc {
+					continue
+				}
+				if rooted(x.Addr) && rooted(x.Val) {
+					return p.InstrPos(in)
+				}
+			case ssa.CallInstruction:
+				sc := x.Common().StaticCallee()
+				if sc == nil || !p.InLibrary(sc) || seen[sc] || sc.Name() == "UnmarshalXML" {
+					continue
+				}
+				for k, a := range x.Common().Args {
+					if k < len(sc.Params) && rooted(a) && isPointerLike(a.Type()) {
+						seen[sc] = true
+						if at := receiverSelfCopy(p, sc, sc.Params[k], seen); at != "" {
+							return at
+						}
+					}
+				}
+			}
+		}
+	}
+	return ""
+}
+
+func isPointerLike(t types.Type) bool {
+	switch t.Underlying().(type) {
+	case *types.Pointer, *types.Slice, *types.Map:
+		return true
+	}
+	return false
 }
